@@ -176,6 +176,26 @@ CLAIMED = {
        "are reals. MultitaskKernel's docstring formula is read up to the row/column permutation of the interleaved layout. Known findings "
        "(distributional kernels' lengthscale, HammingIMQ batching, a linear_operator exception) are listed in known_findings.json.",
   technique="contract-based deductive verification: AST-extracted real functions, elementwise tensor domain with binder-free sums and reciprocal atoms, z3 + sympy CAS"),
+ "C06": dict(
+  category="other",
+  text="Proof tier (counted): LazyEvaluatedKernelTensor._getitem is executed symbolically for ARBITRARY row / column slices (start, stop, step "
+       "each None or any integer: negative, zero, out of range) with 1, 2, 3 or (2, 1) outputs per input and symbolic n1, n2, d, and z3 discharges: "
+       "either the dense fall-back is taken with the same index objects, or the new lazy tensor (same kernel, flags, params) holds exactly the "
+       "points x[start/t + p] with count * t = |range(*slice.indices(N))| and a start aligned to a block boundary -- i.e. it denotes "
+       "dense(M)[rows, cols]; an int batch index indexes both inputs and the kernel; _size for every broadcast pattern of x1 / x2 / kernel batch "
+       "shapes, multi-output factors and last_dim_is_batch; _transpose_nonbatch, _unsqueeze_batch, repeat; Kernel.__call__: the inputs handed to "
+       "forward / to the lazy tensor are exactly the active_dims columns of x1 and x2 (x2 = x1 when omitted, 1-d inputs become columns), diag=True "
+       "returns forward's diagonal, lazy and eager modes wrap the same (inputs, kernel); (k1 + ... + kn)[idx] and the product form build a NEW "
+       "composite of the indexed parts and leave the source untouched (deepcopy modelled structurally). Bounded tier (not counted): exhaustive "
+       "index expressions (ints, slices over 11 bounds x 3 steps, index tensors, batch indices, Ellipsis) on 8 kernels incl. multitask, derivative "
+       "and a (2, 1)-output kernel, diag / transpose / lazy-vs-eager / stacked blocks / repeat / unsqueeze, active_dims incl. kernel[i] and expand_batch.",
+  design_ref="DESIGN.md section 5, C06",
+  note="The generic LinearOperator.__getitem__ (ints, index tensors, Ellipsis expansion) is dependency code: it is exercised by the bounded tier "
+       "only, where two dependency defects (negative ints, broadcasting of index tensors) are known findings. @cached / @recall_grad_state are "
+       "dropped by the extraction. Kernel.__getitem__ / expand_batch on parameter tensors (deepcopy + .data assignment) are covered by the bounded "
+       "tier only; the kernels' own diag-vs-full and symmetry statements are the C05 elementwise postconditions. Outputs per input enumerated "
+       "(1, 2, 3, (2,1)); batch rank <= 1.",
+  technique="contract-based deductive verification: AST-extracted real functions, symbolic slices (CPython slice.indices semantics), elementwise tensor domain, modular callee contracts, z3"),
 }
 REASON_NOT_BUILT = "contracts for this property are not built yet in this revision (see DESIGN.md section 9 build order); not claimed until its obligations are discharged by the checker"
 
